@@ -221,7 +221,11 @@ def execute(check, scenario, seed, replay_streams=None, timeout=None):
     try:
         check.execute(scenario, ctx)
     except SimHang:
-        ctx.violate(f"{check.ID}.raised", f"no result within {t:.0f}s wall clock (hang)")
+        # ctx.call() catches the watchdog while LIBRARY code runs (status "hang", judged by the check).  If it
+        # gets here it fired in scenario construction or in an oracle: that is the harness's time, not the
+        # library's, and must never be reported as a violation.
+        raise HarnessError(f"wall-clock watchdog ({t:.0f}s) fired outside a library call (oracle or scenario "
+                           f"construction too slow) in {check.ID}")
     finally:
         signal.setitimer(signal.ITIMER_REAL, 0)
         signal.signal(signal.SIGALRM, old)
